@@ -888,3 +888,8 @@ mod tests {
         );
     }
 }
+
+// verification hook: bounded-model-checking harnesses (compiled only by Kani, `--cfg kani`)
+#[cfg(kani)]
+#[path = "/verif/harness/h_miette.rs"]
+mod verif;
